@@ -422,14 +422,21 @@ class Tensor:
     # ******* Basic ops *******
     # *************************
     
+    def __wrap_scalar(self, value) -> 'Tensor':
+        # a Python number combined with a floating point tensor is taken at that tensor's precision
+        # (float64 + 0.1 must not go through float32)
+        if isinstance(value, (int, float)) and not isinstance(value, bool) and self.is_floating_point:
+            return Tensor(np.array(value, dtype=self.data.dtype), device=self.device)
+        return Tensor(value, device=self.device)
+    
     def __add__(self, summand:'Tensor') -> 'Tensor':
-        summand = summand if isinstance(summand, Tensor) else Tensor(summand, device=self.device)
+        summand = summand if isinstance(summand, Tensor) else self.__wrap_scalar(summand)
         from . import functional as F
         return  F.add(self, summand)
         
         
     def __mul__(self, factor:'Tensor') -> 'Tensor':
-        factor = factor if isinstance(factor, Tensor) else Tensor(factor, device=self.device)
+        factor = factor if isinstance(factor, Tensor) else self.__wrap_scalar(factor)
         from . import functional as F
         return F.mul(self, factor)
     
